@@ -68,6 +68,24 @@ func C08(tier common.Tier) int {
 	if err != nil {
 		common.Fatalf("%v", err)
 	}
+	// The same program with @ignore markers of an unknown code in the middle of every file: they
+	// suppress nothing, but the packages then carry scoped markers next to the project-wide exclusions.
+	marked := base.Clone()
+	for _, f := range marked.Files {
+		mid := len(f.Lines) / 2
+		for i := mid; i < len(f.Lines); i++ {
+			t := strings.TrimSpace(f.Lines[i].Text)
+			if t != "" && !strings.HasPrefix(t, "//") && !strings.Contains(t, "//") && t != "}" && t != ")" {
+				f.Lines[i].Text += " // @ignore ZZZ9"
+				break
+			}
+		}
+	}
+	pMarked := marked.Program()
+	ldMarked, err := prog.Load(pMarked)
+	if err != nil {
+		common.Fatalf("%v", err)
+	}
 
 	evalOne := func(run *common.Run, value string, toks []string, viaEnv bool, baseline []prog.Diag) {
 		c08SetConfig(value, viaEnv)
@@ -76,6 +94,14 @@ func C08(tier common.Tier) int {
 			run.Report(common.Cex{Sig: "crash", Summary: fmt.Sprintf("analysis crashed under exclude-checks=%q: %s %v", value, res.Panic, res.Errs)})
 			return
 		}
+		// with scoped @ignore markers present in every file the result must be the same
+		resM := prog.Analyze(ldMarked, prog.Opts{})
+		if gm, g := strings.Join(prog.Keys(resM.Diags), "|"), strings.Join(prog.Keys(res.Diags), "|"); gm != g || resM.Panic != "" {
+			missing, extra := diffKeys(prog.Keys(res.Diags), prog.Keys(resM.Diags))
+			run.Report(common.Cex{Sig: fmt.Sprintf("exclude-with-markers|via=%s|lost=%s|gained=%s|ntokens=%d", via(viaEnv), codesOf(missing), codesOf(extra), len(toks)),
+				Summary: fmt.Sprintf("exclude-checks=%q (via %s): adding inert `// @ignore ZZZ9` comments to the files changes the result: lost %v, gained %v %s", value, via(viaEnv), missing, extra, resM.Panic)})
+		}
+		run.State(1, "", "")
 		var want []string
 		for _, d := range baseline {
 			if !c08Excluded(toks, d.Code) {
@@ -207,6 +233,7 @@ func C08(tier common.Tier) int {
 	root := drv.Scratch()
 	defer os.RemoveAll(root)
 	drv.WriteModule(root+"/m", p)
+	drv.WriteModule(root+"/mm", pMarked)
 	baseOut := drv.Run(drv.Req{Driver: drv.Standalone, Dir: root + "/m"})
 	type conf struct {
 		value string
@@ -234,7 +261,11 @@ func C08(tier common.Tier) int {
 	}
 	drv.ParallelDo(len(cells), common.NumWorkers(), func(i int) {
 		c := cells[i]
-		req := drv.Req{Driver: c.k, Dir: root + "/m"}
+		dir := root + "/m"
+		if i%3 == 2 {
+			dir = root + "/mm" // the variant with inert @ignore markers: same expectation
+		}
+		req := drv.Req{Driver: c.k, Dir: dir}
 		if c.env {
 			req.Env = map[string]string{"GOGREEMENT_EXCLUDE_CHECKS": c.c.value}
 		} else {
